@@ -1,4 +1,6 @@
+pub mod bigint;
 pub mod fft;
+pub mod jubjub;
 pub mod kzg;
 pub mod sat;
 pub mod verifier;
